@@ -206,12 +206,12 @@ theorem SafeD.newValueJson : ∀ j, SafeD (Jqawk.newValueJson j)
   | .str s => by unfold Jqawk.newValueJson; exact SafeD.pure _
   | .arr items => by
     unfold Jqawk.newValueJson
-    exact SafeD.bind (SafeD.newValueItems items) (fun cells => SafeD.bind (SafeD.of_safe Safe.getHeap)
-      (fun h => SafeD.bind (SafeD.of_safe (Safe.setHeap _)) (fun _ => SafeD.pure _)))
+    exact SafeD.bind (SafeD.newValueItems items) (fun cells => SafeD.bind (SafeD.of_safe (Safe.allocArrM _))
+      (fun _ => SafeD.pure _))
   | .obj members => by
     unfold Jqawk.newValueJson
-    exact SafeD.bind (SafeD.newValueMembers members) (fun cells => SafeD.bind (SafeD.of_safe Safe.getHeap)
-      (fun h => SafeD.bind (SafeD.of_safe (Safe.setHeap _)) (fun _ => SafeD.pure _)))
+    exact SafeD.bind (SafeD.newValueMembers members) (fun cells => SafeD.bind (SafeD.of_safe (Safe.allocObjM _))
+      (fun _ => SafeD.pure _))
 theorem SafeD.newValueItems : ∀ js, SafeD (Jqawk.newValueItems js)
   | [] => by unfold Jqawk.newValueItems; exact SafeD.pure _
   | j :: js => by
